@@ -35,10 +35,12 @@ def make_spec(g, allow):
                 calls.append((cfgno, Call('sasnap', v)))
             elif r.random() < 0.85:
                 val = g.json_value()
-                calls.append((cfgno, Call('sajson', g.json_text(val).encode(), r.choice(['s', 'b']))))
+                # (vraw: a json.RawMessage - a Go value that carries encoded JSON, e.g. a captured response body)
+                calls.append((cfgno, Call('sajson', g.json_text(val).encode(), r.choice(['s', 'b', 'b', 'vraw']))))
             else:
                 # a failing call still consumes its file index: the next call maps to the next file
-                calls.append((cfgno, Call('sajson', g.bad_json().encode(), 's')))
+                bad = g.bad_json().encode()
+                calls.append((cfgno, Call('sajson', bad, r.choice(['s', 'b', 'vraw']) if bad else 's')))
         execs.append((n, calls))
     return dict(cfgs=cfgs, execs=execs, flags={'pct'} if any(b'%' in n for n in names) else set(),
                 reps=r.choice([1, 2]), upd=r.choice([(False, 'true'), (False, '')]), decoys=r.random() < 0.5 and sum(len(c) for _, c in execs) <= 6)
